@@ -6,7 +6,8 @@
 d=$(readlink -f "/verif/$1" 2>/dev/null || readlink -f "$1"); prop=$2; tier=${3:-quick}
 wt=/tmp/sw-$(basename "$d")
 git -C /repo worktree remove --force "$wt" >/dev/null 2>&1
-git -C /repo worktree add -q --detach "$wt" HEAD || exit 2
+base=$(python3 -c "import json,sys; print(json.load(open(sys.argv[1])).get('base_commit','HEAD'))" "$d/meta.json" 2>/dev/null || echo HEAD)
+git -C /repo worktree add -q --detach "$wt" "$base" || exit 2
 git -C "$wt" apply "$d/patch.diff" || { echo "patch does not apply"; git -C /repo worktree remove --force "$wt"; exit 2; }
 mkdir -p /verif/build/dev
 out=/verif/build/dev/seeded-$(basename "$d")-$prop.out
